@@ -54,19 +54,20 @@ func mkRegionName(fq, start []byte, id uint64) []byte {
 }
 
 type simServe struct {
-	seq      int
-	addr     string
-	conn     int
-	kind     string // get | mutate | probe | meta | scan
-	table    string
-	key      []byte
-	region   string
-	hosted   bool
-	inRange  bool
-	outcome  string
-	at       time.Time
-	tag      int // request tag (from the row key's registered owner), -1 if none
-	afterEnd bool
+	seq        int
+	addr       string
+	conn       int
+	kind       string // get | mutate | probe | meta | scan
+	table      string
+	key        []byte
+	region     string
+	hosted     bool
+	inRange    bool
+	outcome    string
+	at         time.Time
+	tag        int // request tag (from the row key's registered owner), -1 if none
+	afterEnd   bool
+	notCurrent bool // the region object's current connection is to another server
 }
 
 type simCluster struct {
@@ -229,6 +230,10 @@ func (s *simConn) serve(call hrpc.Call) {
 	}
 	if reg := call.Region(); reg != nil {
 		sv.region = string(reg.Name())
+		// the client's own state designates another connection for this region right now
+		if rc := reg.Client(); rc != nil && rc.Addr() != s.addr {
+			sv.notCurrent = true
+		}
 	}
 	finish := func(outcome string) {
 		sv.outcome = outcome
@@ -451,9 +456,15 @@ var backoffLog struct {
 	d []time.Duration
 }
 
+// backoffHook, when set, is called (once armed) from inside a retry back-off of the client.
+var backoffHook atomic.Value // func()
+
 func fastBackoff(ctx context.Context, d time.Duration) (time.Duration, error) {
 	if err := ctx.Err(); err != nil {
 		return 0, err
+	}
+	if h, _ := backoffHook.Load().(func()); h != nil {
+		h()
 	}
 	backoffLog.Lock()
 	backoffLog.d = append(backoffLog.d, d)
